@@ -104,6 +104,24 @@ theorem gen_order_rows :
       List.zipWith (fun p c => (Attrs.run (orderRun p c)).st.trace.map Attrs.Ev.code)
         Gen.C19.orderParams Gen.C19.orderChunks := by decide +kernel
 
+/-- the `Attrs.Run` of a row of Gen `privParams` -/
+def privRowRun (p : List Nat) (chunks : List (Nat × Nat)) : Attrs.Run :=
+  match p with
+  | [sit, d, smode, suid, sgid, sat, smt, puid, pgid] =>
+    Attrs.privRun (Attrs.Priv.ofCode sit) (d == 1) false false false smode suid sgid sat smt puid pgid
+      (chunks.map fun c => List.replicate c.1 (if c.2 == 1 then 0 else 1))
+  | _ => default
+
+/-- **Privilege bridge.** Under every privilege situation the launcher could create (root; a non-root euid with CAP_CHOWN;
+    a plain user; a member of the source's group) the system calls of the REAL `xz` on its file pair — including the
+    fchown(owner) call, which is attempted whatever the euid, and the mode given to fchmod, which is narrowed exactly when
+    the group could not be set — are the trace of `Attrs.run (privRun …)`; the exit status and the kernel's verdict on each
+    fchown call agreed with chown(2) (otherwise the row carries a [96,…] / [95,…] marker and this fails). -/
+theorem gen_priv_rows :
+    Gen.C19.privObserved =
+      List.zipWith (fun p c => (Attrs.run (privRowRun p c)).st.trace.map Attrs.Ev.code)
+        Gen.C19.privParams Gen.C19.privChunks := by decide +kernel
+
 /-- a [lseek n] [write 1] pair directly followed by the first attribute call: the "last write" of io_close() -/
 def hasLastWrite : List (List Nat) → Bool
   | [2, _] :: [1, 1] :: [3, u] :: rest => true || hasLastWrite ([3, u] :: rest)
@@ -847,6 +865,48 @@ theorem attrs_trace_shape (r : Attrs.Run) (h : Attrs.OkRun r) :
     ∃ ws, (∀ e ∈ ws, e.isData = true) ∧ (Attrs.run r).st.trace = ws ++ Attrs.okCloseEvents r := by
   obtain ⟨ws, hd, ht, _, _⟩ := Attrs.run_ok_trace r h
   exact ⟨ws, hd, ht⟩
+
+/-- a command-line run in which every system call but the two fchown calls succeeds is an `OkRun` -/
+theorem privRun_ok (p : Attrs.Priv) (d keep noSparse noSync : Bool) (sm su sg sa smt pu pg : Nat) (chunks : List (List UInt8)) :
+    Attrs.OkRun (Attrs.privRun p d keep noSparse noSync sm su sg sa smt pu pg chunks) := by
+  constructor <;> simp [Attrs.privRun, Attrs.cliRun, Attrs.Env.allOk]
+
+/-- **owner_chown_attempted.** fchown(owner) is ATTEMPTED in every successful run, whatever the effective uid: being root
+    (`warn_fchown`) decides only whether a failure is reported. (The seeded change `warn_fchown && fchown(...)` breaks this.) -/
+theorem owner_chown_attempted (r : Attrs.Run) (h : Attrs.OkRun r) :
+    Attrs.Ev.chownOwner r.src.uid ∈ (Attrs.run r).st.trace := by
+  obtain ⟨ws, _, ht⟩ := attrs_trace_shape r h
+  rw [ht]
+  apply List.mem_append_right
+  simp [Attrs.okCloseEvents, Attrs.attrEvents]
+
+/-- **owner_group_where_permitted.** Under each privilege situation (root; non-root with CAP_CHOWN; plain user; member of the
+    source's group) the target gets the source's owner iff changing the owner is permitted, the source's group iff changing
+    the group is permitted (or it already is that group), and the permission bits are narrowed by the group-fallback rule
+    exactly when the group could not be set. -/
+theorem owner_group_where_permitted (p : Attrs.Priv) (d keep noSparse noSync : Bool) (sm su sg sa smt pu pg : Nat)
+    (chunks : List (List UInt8)) :
+    let r := Attrs.privRun p d keep noSparse noSync sm su sg sa smt pu pg chunks
+    (Attrs.run r).st.dest.uid = (if Attrs.ownerPermitted p pu su then su else pu) ∧
+    (Attrs.run r).st.dest.gid = (if Attrs.groupPermitted p pg sg then sg else pg) ∧
+    (Attrs.run r).st.dest.mode = destMode sm (decide (pg ≠ sg) && !Attrs.groupPermitted p pg sg) ∧
+    (Attrs.run r).st.dest.mtime = smt ∧ (Attrs.run r).st.dest.atime = sa := by
+  intro r
+  have h := attrs_copied_exactly r (privRun_ok p d keep noSparse noSync sm su sg sa smt pu pg chunks)
+  obtain ⟨_, hm, ha, hmode, hu, hg, _, _⟩ := h
+  refine ⟨?_, ?_, ?_, hm, ha⟩
+  · rw [hu]; simp [r, Attrs.privRun, Attrs.cliRun, Attrs.Env.allOk]
+  · rw [hg]; simp [r, Attrs.privRun, Attrs.cliRun, Attrs.Env.allOk]
+  · rw [hmode]; simp [r, Attrs.privRun, Attrs.cliRun, Attrs.Env.allOk]
+
+/-- with CAP_CHOWN (or as root) owner and group are always the source's, whoever owns the source -/
+theorem capable_copies_owner_and_group (p : Attrs.Priv) (hp : p = .root ∨ p = .capChown) (d keep noSparse noSync : Bool)
+    (sm su sg sa smt pu pg : Nat) (chunks : List (List UInt8)) :
+    let r := Attrs.privRun p d keep noSparse noSync sm su sg sa smt pu pg chunks
+    (Attrs.run r).st.dest.uid = su ∧ (Attrs.run r).st.dest.gid = sg ∧ (Attrs.run r).st.dest.mode = sm &&& 0o777 := by
+  intro r
+  obtain ⟨h1, h2, h3, _, _⟩ := owner_group_where_permitted p d keep noSparse noSync sm su sg sa smt pu pg chunks
+  rcases hp with rfl | rfl <;> simp_all [Attrs.ownerPermitted, Attrs.groupPermitted, destMode, r]
 
 /-- **Every write precedes futimens**: wherever a futimens call sits in the trace of a successful run, it carries the
     source's times and no write to the destination follows it. -/
